@@ -151,7 +151,7 @@ def run(check):
                   "type, enabled, stop_if, deploy, wait_for, closure timeout, workflow output, foreach items and parallelism), type-adapted so that Prepare accepts "
                   "them; (B) misbehaving plugins (undeclared output id, ill-typed data, nil data, step-fatal and server-fatal errors, dropped connection) at every "
                   "step of 4 shapes and protocol faults at the run-time deployment; oracle: the child process must not die by panic / fatal error (and must not "
-                  "hang); non-trivial = a fault was injected and the workflow was accepted; distinct = (fault class, position)") % (len(FAULTS), len(POSITIONS))
+                  "hang); (C) results that appear only because the run is being terminated and reach steps that are being closed; non-trivial = a fault was injected and the workflow was accepted; distinct = (fault class, position)") % (len(FAULTS), len(POSITIONS))
     check.assumptions = ["workflow inputs are schema-valid", "a rejected workflow is not a violation but is counted (coverage lost)"]
     gs = []
     for (fclass, ftype, fexpr, ov) in FAULTS:
@@ -167,6 +167,35 @@ def run(check):
             scripts["sub_w0"]["exec"] = {"outcome": "crash"}
             gs.append({"program": prog, "scripts": scripts, "input": {"tag": "T", "items": [{"tag": "i%d" % k} for k in range(64)]}, "shape": "foreach-64-items-all-crash/par%d" % par,
                        "outcome": {}, "fault": ("many-failing-items-in-parallel", "foreach par=%d rep=%d" % (par, rep))})
+    # (C) results that only appear because the run is being terminated: the run ends on a quick step (with an output, or with
+    # an evaluation error), its termination cancels a never-ending step, which then reports an output that other steps
+    # (loop, plugin, wait_for consumer) were waiting for - their input arrives while or after they are being closed
+    for rep in range(check.pick(60, 400)):
+        rng = random.Random(derive_seed(check.seed, "c07-late", rep))
+        on_cancel = rng.choice(["success", "success", "error"])
+        ref_h = Ref("h", "outputs", "success", "tag") if on_cancel == "success" else Ref("h", "outputs", "error", "reason")
+        q = gen.plugin_step("q", Expr(In("tag")))
+        h = gen.plugin_step("h", Expr(In("tag")))
+        steps = [q, h]
+        kinds = rng.sample(["loop", "plugin", "wait_for", "loop2"], rng.choice([1, 2, 3]))
+        for k in kinds:
+            if k.startswith("loop"):
+                sub = gen.sub_program("sub_%s.yaml" % k, 1)
+                steps.append(Step(k, "foreach", sub=sub, items=[{"tag": Expr(ref_h)}, {"tag": Expr(In("tag"))}], parallelism=rng.choice([1, 2])))
+            elif k == "plugin":
+                steps.append(gen.plugin_step("p", Expr(ref_h)))
+            else:
+                steps.append(gen.plugin_step("w", Expr(In("tag")), wait_for=Expr(ref_h)))
+        ending = rng.choice(["output", "output", "evalfault"])
+        outs = {"success": {"q": gen.tagref("q")}}
+        if ending == "evalfault":
+            outs["success"]["z"] = Expr(Call("stringToInt", Ref("q", "outputs", "success", "tag")))
+        rng.shuffle(steps)
+        prog = Program(steps, outs, gen.BASE_INPUT)
+        scripts = gen.make_scripts(steps, {})
+        scripts["h"]["exec"] = {"outcome": "hang", "on_cancel": on_cancel}
+        gs.append({"program": prog, "scripts": scripts, "input": gen.base_input(rng), "shape": "late-result/%s/%s/%s" % (ending, on_cancel, "+".join(sorted(kinds))), "outcome": {},
+                   "fault": ("result-produced-by-termination", "%s %s" % (on_cancel, "+".join(sorted(kinds))))})
     items = []
     for i, g in enumerate(gs):
         prog = g["program"]
